@@ -111,7 +111,7 @@ pub fn run_live(toks: &[&str]) -> String {
         match toks[i] {
             "r" => {
                 let v: Vec<i64> = toks[i + 1..i + 12].iter().map(|s| p::<i64>(s)).collect();
-                let t = mk_tracking_aged(0, v[3] as u16, v[5], v[6], v[7], v[2] as u32, v[0] as u32, v[1] as u32, v[4] as u32);
+                let t = mk_tracking_aged(crate::bound::ANY_REF, v[3] as u16, v[5], v[6], v[7], v[2] as u32, v[0] as u32, v[1] as u32, v[4] as u32);
                 let as_of = libc::timespec { tv_sec: v[9], tv_nsec: v[10] };
                 msgs.push((off, wait, Message::ClockErrorBoundData((t, v[8], as_of))));
                 i += 12;
@@ -208,7 +208,7 @@ fn run_with(toks: &[&str], timed: bool, fresh_file: bool) -> String {
         match toks[i] {
             "r" => {
                 let v: Vec<i64> = toks[i + 1..i + 12].iter().map(|s| p::<i64>(s)).collect();
-                let t = mk_tracking_aged(0, v[3] as u16, v[5], v[6], v[7], v[2] as u32, v[0] as u32, v[1] as u32, v[4] as u32);
+                let t = mk_tracking_aged(crate::bound::ANY_REF, v[3] as u16, v[5], v[6], v[7], v[2] as u32, v[0] as u32, v[1] as u32, v[4] as u32);
                 let as_of = libc::timespec { tv_sec: v[9], tv_nsec: v[10] };
                 dbox.send(&ChannelId::ShmWriter, Message::ClockErrorBoundData((t, v[8], as_of))).unwrap();
                 i += 12;
